@@ -666,12 +666,39 @@ def conformsFrom : List Item → List Rem → Bool
 
 def conformsB (es : List Item) (got : List Got) : Bool := conformsFrom es [(got.length, got)]
 
+/-- Where the exact decision gets stuck: the first item after which no remainder is left — whichever way the
+    items before it are cut, the output does not continue with the `lo` lines this item needs. -/
+def stuckAt : List Item → List Rem → Option Item
+  | [], _ => none
+  | e :: es, fr =>
+    match dedupRem (splitsAll e fr) with
+    | [] => some e
+    | fr' => stuckAt es fr'
+
+/-- Is some line of item `i` emitted more often than all the items that can take it allow together? -/
+def overEmitted (es : List Item) (got : List Got) (i : Nat) : Bool :=
+  let cand := got.filter (·.item == i)
+  cand.any fun g => ((es.filter (·.matches g)).map (·.hi)).sum < cand.countP (· == g)
+
+/-- The verdict of the greedy walk, corrected where it is known to misname: `A B A` with `B` LOST arrives as
+    `A A`, which the walk calls a duplicate of `A`. A `duplicated` is kept only if the line really is emitted
+    more often than allowed; otherwise the item at which every cutting gets stuck is named as lost. -/
+def diagnose (gid : Nat) (es : List Item) (got : List Got) (v : Verdict) : Verdict :=
+  match v with
+  | .pass => .fail "unexpected" gid 0
+  | .fail cls g i =>
+    if cls == "duplicated" && !overEmitted es got i then
+      match stuckAt es [(got.length, got)] with
+      | some e => .fail "lost" gid e.item
+      | none => .fail cls g i
+    else .fail cls g i
+
 /-- One goroutine's part of the expanded output against its items: accepted iff it can be cut into
-    conforming blocks; otherwise the verdict of the greedy walk says where. -/
+    conforming blocks; otherwise the (corrected) verdict of the greedy walk says where. -/
 def checkProd (gid : Nat) (es : List Item) (got : List Got) : Verdict :=
   match greedyProd gid es got with
   | .pass => .pass
-  | v => if conformsB es got then .pass else v
+  | v => if conformsB es got then .pass else diagnose gid es got v
 
 /-- All goroutines `0 … np-1`, in order; first failure wins. -/
 def checkProds (outs : List OutW) (exps : Nat → List Item) : Nat → Nat → Verdict
